@@ -32,10 +32,18 @@ func c25OverlappingVerifications(t *testing.T, rec *ev.Recorder) {
 	bg := context.Background()
 	gated := []string{"GenerateHostname", "RegisteredHostnames", "PublishTunnel", "UnpublishTunnel", "ReleaseTunnel", "GetNodes", "AcmeInstruction", "AcmeValidate"}
 
+	caseNo := 0
+	gaveUp := false
 	ev.RapidCheck(t, 120, 4000, func(rt *rapid.T) {
+		if gaveUp {
+			return
+		}
 		fx.kv.setFault(nil)
 		fx.kv.MemoryKV = memory.WithHashFn(chord.Hash)
-		reg := newClientV1("R", 7001, "tok-inflight-registered")
+		// a token of its own for every case: nothing a server may remember about earlier callers
+		// can stand in for the lookup
+		caseNo++
+		reg := newClientV1("R", 7001, fmt.Sprintf("tok-inflight-registered-%d", caseNo))
 		recKind := rapid.SampledFrom([]string{"pki-record", "pre-pki-record"}).Draw(rt, "registeredRecord")
 		{
 			n := reg.identity()
@@ -95,6 +103,7 @@ func c25OverlappingVerifications(t *testing.T, rec *ev.Recorder) {
 		case <-time.After(10 * time.Second):
 			close(release)
 			rec.Inconclusive("registered-caller-never-asked-the-dht")
+			gaveUp = true // the schedule cannot be set up on this build: do not spend 10 s per case
 			return
 		}
 		fx.kv.takeMutLog()
